@@ -2,8 +2,9 @@
 """C17 correspondence run: generate shapes, emit TUs, compile against the current /repo header,
 run them, concatenate the transcripts and (optionally) replay them through the Lean driver.
 
-    run_c17.py --tier quick|thorough [--seed N] [--jobs J] [--out DIR] [--driver PATH]
+    run_c17.py --tier quick|thorough [--seed N] [--count N] [--jobs J] [--out DIR] [--driver PATH]
                [--include DIR] [--per-tu K] [--sanitize] [--syntax-only] [--shapes FILE]
+               [--exhaustive N [--vary-headed]]
 
 Prints measured timings and the aggregated `# stat` lines; exit status 0 iff every TU compiled and
 ran, no ORACLE-FAIL line was printed and (when a driver is given) the replay ended with `OK`.
@@ -18,8 +19,8 @@ HARNESS_DIR = os.path.normpath(os.path.join(os.path.dirname(os.path.abspath(__fi
 
 TIERS = {
     # count, max_states, max_depth, max_width, shapes per TU
-    'quick':    dict(count=80,   max_states=32, max_depth=5, max_width=9,  per_tu=5),
-    'thorough': dict(count=1000, max_states=64, max_depth=8, max_width=33, per_tu=8),
+    'quick':    dict(count=80,   max_states=32, max_depth=5, max_width=9,  per_tu=5, exhaustive=4),
+    'thorough': dict(count=1000, max_states=64, max_depth=8, max_width=33, per_tu=8, exhaustive=6),
 }
 
 
@@ -31,7 +32,7 @@ def build_one(job):
         f.write(text)
     cmd = ['g++', '-std=c++14', '-I' + include, '-I' + harness_dir]
     if syntax_only:
-        cmd += ['-O0', '-fsyntax-only', src]
+        cmd += ['-O0', '-fsyntax-only', '-DC17_STATIC_ASSERTS', src]
     elif sanitize:
         cmd += ['-O1', '-g', '-fsanitize=address,undefined', '-fno-sanitize-recover=all', src, '-o', exe]
     else:
@@ -64,6 +65,9 @@ def main():
     ap.add_argument('--syntax-only', action='store_true')
     ap.add_argument('--driver', help='path of the Lean `driver` executable; replays with component c17')
     ap.add_argument('--shapes', help='file with one s-expression per line (instead of generating)')
+    ap.add_argument('--exhaustive', type=int, default=None,
+                    help='also every tree with at most N states (composite/orthogonal labelling)')
+    ap.add_argument('--vary-headed', action='store_true', help='exhaustive mode: all headed/headless combinations')
     a = ap.parse_args()
 
     tier = TIERS[a.tier]
@@ -76,6 +80,12 @@ def main():
         shs = [S.parse(l) for l in open(a.shapes) if l.strip() and not l.startswith('#')]
     else:
         shs = S.generate(a.seed, count, tier['max_states'], tier['max_depth'], tier['max_width'])
+    exhaustive = a.exhaustive if a.exhaustive is not None else tier['exhaustive']
+    if exhaustive and not a.shapes:
+        seen = {S.to_sexpr(x) for x in shs}
+        for x in S.enumerate_shapes(exhaustive, a.vary_headed):
+            if S.to_sexpr(x) not in seen:
+                shs.append(x)
     with open(os.path.join(a.out, 'shapes.txt'), 'w') as f:
         for s in shs:
             f.write(S.to_sexpr(s) + '\n')
